@@ -124,19 +124,24 @@ package xsync
 //@   serves C13 C14
 //@   requires table != nil && wfslice(table.size)
 //@   loop rangeindex.loop: invariant idx: rangeindex >= -1 && rangeindex < len(table.size)
+//@   loop rangeindex.loop: invariant {C08} sum.init: rangeindex == -1 ==> sum == 0
+//@   loop rangeindex.loop: iteration {C08} sum.step: rangeindex == athead(rangeindex) + 1 && sum == athead(sum) + table.size[rangeindex].c
+//@   loop rangeindex.loop: exit {C08} sum.complete: rangeindex + 1 == len(table.size)
 //@   ensures {C16} effect.nolock: nacquire() == 0 && nblocking() == 0
 
 //@ func (*mapTable).addSize
 //@   serves C13 C14
 //@   requires table != nil && wfslice(table.size) && pow2(len(table.size))
 //@   modifies mem(table.size[u64(len(table.size) - 1) & bucketIdx].c)
+//@   ensures {C08} post.stripe: table.size[u64(len(table.size) - 1) & bucketIdx].c == old(table.size[u64(len(table.size) - 1) & bucketIdx].c) + i64(delta)
 //@   ensures {C16} effect.nolock: nacquire() == 0 && nblocking() == 0
 
 //@ func (*mapTable).addSizePlain
 //@   serves C13 C14
 //@   requires table != nil && wfslice(table.size) && pow2(len(table.size))
 //@   effect builder
-//@   modifies allmem
+//@   modifies mem(table.size[u64(len(table.size) - 1) & bucketIdx].c)
+//@   ensures {C08} post.stripe: table.size[u64(len(table.size) - 1) & bucketIdx].c == old(table.size[u64(len(table.size) - 1) & bucketIdx].c) + i64(delta)
 //@ func appendToBucket
 //@   serves C13 C14
 //@   requires b != nil
@@ -153,6 +158,10 @@ package xsync
 //@   modifies allmem, allghost
 //@   loop for.body: invariant cursor: b != nil && rootb == old(b) && destTable == old(destTable) && tblShape(destTable)
 //@   loop for.loop: invariant idx: 0 <= i && i <= 3 && b != nil && rootb == old(b) && destTable == old(destTable) && tblShape(destTable)
+//@   loop for.loop: iteration {C08,C11} count.step: copied == athead(copied) + itercalls("appendToBucket")
+//@   loop for.loop: iteration {C08,C11,C03} copy.every-entry: itercalls("appendToBucket") <= 1 && ((itercalls("appendToBucket") == 1) == (athead(b.keys[i]) != nil))
+//@   oncall appendToBucket: {C11,C03} copy.entry: arg1 == b.keys[i] && arg1 != nil && arg2 == b.values[i]
+//@   oncall appendToBucket: {C11,C03} copy.dest: arg0 == hashString(load(string, arg1), destTable.seed) && arg3 == root(destTable, u64(nbk(destTable) - 1) & arg0)
 
 //@ func isEmptyBucket
 //@   serves C13 C14
@@ -280,19 +289,24 @@ package xsync
 //@   serves C13 C14
 //@   requires table != nil && wfslice(table.size)
 //@   loop rangeindex.loop: invariant idx: rangeindex >= -1 && rangeindex < len(table.size)
+//@   loop rangeindex.loop: invariant {C08} sum.init: rangeindex == -1 ==> sum == 0
+//@   loop rangeindex.loop: iteration {C08} sum.step: rangeindex == athead(rangeindex) + 1 && sum == athead(sum) + table.size[rangeindex].c
+//@   loop rangeindex.loop: exit {C08} sum.complete: rangeindex + 1 == len(table.size)
 //@   ensures {C16} effect.nolock: nacquire() == 0 && nblocking() == 0
 
 //@ func (*mapOfTable[K, V]).addSize
 //@   serves C13 C14
 //@   requires table != nil && wfslice(table.size) && pow2(len(table.size))
 //@   modifies mem(table.size[u64(len(table.size) - 1) & bucketIdx].c)
+//@   ensures {C08} post.stripe: table.size[u64(len(table.size) - 1) & bucketIdx].c == old(table.size[u64(len(table.size) - 1) & bucketIdx].c) + i64(delta)
 //@   ensures {C16} effect.nolock: nacquire() == 0 && nblocking() == 0
 
 //@ func (*mapOfTable[K, V]).addSizePlain
 //@   serves C13 C14
 //@   requires table != nil && wfslice(table.size) && pow2(len(table.size))
 //@   effect builder
-//@   modifies allmem
+//@   modifies mem(table.size[u64(len(table.size) - 1) & bucketIdx].c)
+//@   ensures {C08} post.stripe: table.size[u64(len(table.size) - 1) & bucketIdx].c == old(table.size[u64(len(table.size) - 1) & bucketIdx].c) + i64(delta)
 
 //@ func appendToBucketOf
 //@   serves C13 C14
@@ -310,6 +324,10 @@ package xsync
 //@   modifies allmem, allghost
 //@   loop for.body: invariant cursor: b != nil && rootb == old(b) && destTable == old(destTable) && tblShapeOf(destTable)
 //@   loop for.loop: invariant idx: 0 <= i && i <= 5 && b != nil && rootb == old(b) && destTable == old(destTable) && tblShapeOf(destTable)
+//@   loop for.loop: iteration {C08,C11} count.step: copied == athead(copied) + itercalls("appendToBucketOf")
+//@   loop for.loop: iteration {C08,C11,C04} copy.every-entry: itercalls("appendToBucketOf") <= 1 && ((itercalls("appendToBucketOf") == 1) == (athead(b.entries[i]) != nil))
+//@   oncall appendToBucketOf: {C11,C04} copy.entry: arg1 == b.entries[i] && arg1 != nil
+//@   oncall appendToBucketOf: {C11,C04,C10} copy.dest: arg0 == h2(apply(hasher, as(arg1, "*entryOf").key, destTable.seed)) && arg2 == rootO(destTable, u64(len(destTable.buckets) - 1) & h1(apply(hasher, as(arg1, "*entryOf").key, destTable.seed)))
 
 //@ func (*MapOf[K, V]).doCompute
 //@   serves C13 C14
@@ -468,6 +486,8 @@ package xsync
 //@   requires m != nil && mapInv(m)
 //@   requires private tblShape(tab(m))
 //@   loop rangeindex.loop: invariant idx: rangeindex >= -1
+//@   oncall sumSize: {C08} sum.current-table: arg0 == tab(m)
+//@   ensures {C08} post.sum: i64(res0) == lastret("sumSize", 0)
 //@   ensures assumed {C08} post.value: res0 == card(view(m))
 //@   ensures {C16} effect.nolock: nacquire() == 0 && nblocking() == 0
 
@@ -566,6 +586,8 @@ package xsync
 //@   requires m != nil && mapInv(m)
 //@   requires private tblShapeOf(tabOf(m))
 //@   loop rangeindex.loop: invariant idx: rangeindex >= -1
+//@   oncall sumSize: {C08} sum.current-table: arg0 == tabOf(m)
+//@   ensures {C08} post.sum: i64(res0) == lastret("sumSize", 0)
 //@   ensures assumed {C08} post.value: res0 == card(view(m))
 //@   ensures {C16} effect.nolock: nacquire() == 0 && nblocking() == 0
 
